@@ -33,16 +33,19 @@ def handle (line : String) : String :=
     match stringOfHex h with
     | none => "bad-hex"
     | some s =>
-      match spec syn kind with
+      match classify syn kind with
       | none =>
         if syn == "jsonld" && kind == "bnode" then
           if matchB rdfTypesBlank (ofStr s) then "accepted=1 gen=1" else "accepted=0"
         else if (syn.splitOn "@").head! == "jsonld" || (syn == "xml" && kind == "type") then "nomodel=1" else "bad-op"
-      | some sp =>
+      | some c =>
+        -- `spec syn kind = some (specOf syn c)`; the harness is a dev build: `acc` is the debug outcome of the accessor
+        let sp := specOf syn c
         let w := ofStr s
         if sp.accept w then
           let o := sp.out w
-          reply [kv "accepted" "1", kv "out" (hexW o), kvB "valid" (matchB sp.validator o)]
+          reply [kv "accepted" "1", kv "out" (hexW o), kvB "valid" (matchB sp.validator o),
+                 kv "acc" (access true syn c o).name, kv "release" (access false syn c o).name]
         else "accepted=0"
   | ["trail", syn, kind, h, _] =>
     -- the document is always in error; what matters is whether a label with a trailing '.' was
@@ -61,6 +64,14 @@ def handle (line : String) : String :=
       if matchB Gen.IRI_REGEX w then
         reply [kv "new" "1", kv "parse" (if matchB Oxiri.abs w then "ok" else "panic")]
       else "new=0"
+  | ["glue", "j", script, sink] =>
+    -- JsonLdQuadSource: `<n>` quads or `0!` the one-shot error
+    let sk := if sink == "-" then none else some sink.toNat!
+    if script.endsWith "!" then
+      kv "outs" (String.ofList ((ParserGlue.jsonRun sk 3 (.err true)).map ParserGlue.Out.letter))
+    else
+      let n := script.toNat!
+      kv "outs" (String.ofList ((ParserGlue.jsonRun sk (n + 2) (.quads n 0)).map ParserGlue.Out.letter))
   | ["glue", _, script, sink] =>
     -- script: comma separated steps `<items>` or `<items>!` (the step ends in a parser error)
     let steps := (script.splitOn ",").filterMap (fun t =>
